@@ -41,8 +41,8 @@ ASSUMPTIONS = ['references are same-row `$Ck` attribute reads inside one table (
                'requires an error value of any kind',
                'in batch cases the engine is reused between graphs (tables are removed); a failing batch is minimised to '
                'the graphs needed']
-BUDGET = {'quick': dict(examples=120, shards=8, max_seconds=60),
-          'thorough': dict(examples=4000, shards=16, max_seconds=600)}
+BUDGET = {'quick': dict(examples=120, shards=8, max_seconds=50),
+          'thorough': dict(examples=1600, shards=16, max_seconds=600)}
 SHRINK_BUDGET = {'quick': 120, 'thorough': 400}
 
 TYPES = ['Any', 'Int', 'Numeric']
